@@ -15,6 +15,7 @@ import Nsl.Model.Opt
 import Nsl.Model.Link
 import Nsl.Model.Wasm
 import Nsl.Model.WasmEval
+import Nsl.Model.WasmRange
 import Nsl.Gen.Grammar
 /-!
 # Line-protocol driver: one request per line on stdin, one answer per line on stdout.
@@ -212,6 +213,23 @@ def handle (st : DState) (line : String) : DState × String :=
           | .ok m => "ok " ++ Leb.hex (Wasm.Py.encModule m) ++ (if Wasm.validModule m then " valid" else " invalid")
           | .error e => "error " ++ e)
       | none => "error no-ir")
+  | "intrun" :: fuel :: fn :: args =>
+    -- range-checked run (hypothesis of C06_agree_int) of an `intFunc` of the loaded IR on integer arguments
+    (st, match st.ir, fuel.toNat? with
+      | some p, some fuel =>
+        (match p.find fn with
+         | some f =>
+           if Wasm.intFunc f then
+             match args.mapM (fun (a : String) => a.toInt?) with
+             | some xs =>
+               (match Wasm.runR p fuel f 0 { args := xs.map Val.int } [] with
+                | .done (.int v) _ _ => "done " ++ toString v
+                | .done _ _ _ => "done-other"
+                | .fail e => "fail " ++ (Codec.encErr e).toStr)
+             | none => "error-args"
+           else "not-intfunc"
+         | none => "error-no-function")
+      | _, _ => "error no-ir")
   | "mod" :: _ =>
     match (Sexp.parse (restOfLine line 1)).bind Codec.decModule with
     | some m => ({ st with mod := some m, prog := some (Lower.lowerModule m) }, "ok")
@@ -233,7 +251,10 @@ def handle (st : DState) (line : String) : DState × String :=
       | none => "error")
   | ["fwdok"] => (st, match st.ir with
       | some p => " | ".intercalate (p.funcs.map fun f =>
-          f.name ++ ": " ++ (if Opt.forwardOK none (Opt.pass Opt.ccDecide f.code) then "ok" else "no"))
+          f.name ++ ": " ++ (if Opt.optOK f then "ok" else "no") ++
+            (if Opt.forwardOK none (Opt.pass Opt.ccDecide f.code) then "" else " not-forwardOK") ++
+            (if Opt.blockLocal [] f.code then "" else " not-block-local") ++
+            (if Opt.defsDistinct f.code then "" else " defs-not-distinct"))
       | none => "error")
   | ["wfmodel"] => (st, match st.prog with
       | some p => " | ".intercalate (p.funcs.map fun f => f.name ++ ": " ++ WF.wfReport f p)
